@@ -16,7 +16,7 @@
    [check] is the checker of the property itself on the implementation's observation. *)
 From Coq Require Import List Arith Bool Lia.
 Import ListNotations.
-From Onet Require Export Base.Corr Net.RouterClose Net.CloseSeq Net.CloseConc.
+From Onet Require Export Base.Corr Net.RouterClose Net.CloseSeq Net.CloseConc Net.SendClose Net.StartClose.
 
 (* which variant of the code the correspondence compares with; the integrator flips a
    flag when the corresponding fix commit lands in /repo *)
@@ -300,13 +300,42 @@ Definition agree_closerace (k n oks errs pending : nat) (o : sobs) : bool :=
   Bool.eqb (forallb returned (callers s)) (s_returned o) &&
   (instances_k s =? s_instances o) && negb (s_panic o).
 
+(* ---- a Send blocked in the socket write when Stop is called (TCP) ------------- *)
+
+(* nok sends complete, the peer stops reading, one more Send blocks in the write, Stop is
+   called: the observed results are those of the run of Net/SendClose.v (the code as it
+   is: TCPConn.Close does not take sendMutex) on the same schedule *)
+Definition wres (p : wpc) : ores := match p with WDone Ok => ROk | WDone Err => RErr | _ => RPending end.
+
+Definition agree_blocked (nok : nat) (o : robs) : bool :=
+  match wrun false winit (blocked_schedule nok) with
+  | Some s =>
+      list_eqb ores_eqb (map wres (writers s)) (o_sends o) &&
+      list_eqb Bool.eqb [match stopper s with SRet => true | _ => false end] (o_stops o) &&
+      negb (o_panic o) && (o_inprogress o =? 0) && (o_late o =? 0)
+  | None => false
+  end.
+
+(* ---- a protocol start whose constructor is running when Close is called ------- *)
+
+Definition agree_ctor_held (start_ok : bool) (o : sobs) : bool :=
+  match orun false oinit (ctor_held_schedule true) with
+  | Some s =>
+      (regs s =? s_instances o) &&
+      Bool.eqb (match nth_error (starts s) 0 with Some PBound => true | _ => false end) start_ok &&
+      Bool.eqb (match ocloser s with OClosed => true | _ => false end) (s_returned o) && negb (s_panic o)
+  | None => false
+  end.
+
 (* ---- cases ------------------------------------------------------------------ *)
 
 Inductive case :=
 | RouterScript (tcp : bool) (ms : list macro) (o : robs)
 | RouterRace (tcp : bool) (nin : nat) (o : robs)
 | ServerClose (insts : list nat) (ms : list smacro) (o : sobs)
-| ServerCloseRace (k n oks errs pending : nat) (o : sobs).
+| ServerCloseRace (k n oks errs pending : nat) (o : sobs)
+| BlockedSend (nok : nat) (o : robs)
+| CtorHeld (start_ok : bool) (o : sobs).
 
 Definition agree (c : case) : bool :=
   match c with
@@ -314,6 +343,8 @@ Definition agree (c : case) : bool :=
   | RouterRace _ nin o => agree_race nin o
   | ServerClose insts ms o => agree_server insts ms o
   | ServerCloseRace k n oks errs pending o => agree_closerace k n oks errs pending o
+  | BlockedSend nok o => agree_blocked nok o
+  | CtorHeld ok o => agree_ctor_held ok o
   end.
 
 Definition mismatches (l : list case) : list nat := mism_idx agree l.
@@ -357,6 +388,8 @@ Definition check (c : case) : list nat :=
   | RouterRace _ _ o => check_router o
   | ServerClose _ _ o => check_server o
   | ServerCloseRace _ _ _ _ _ o => check_server o
+  | BlockedSend _ o => check_router o
+  | CtorHeld _ o => check_server o
   end.
 
 Definition violations (l : list case) : list (nat * nat) := viols check l.
